@@ -41,6 +41,7 @@ ALL_FEATURES = (
     "branch_edges",
     "ips",
     "overlap",
+    "abs_paths",
 )
 # "big_incbin" (a >64 KiB contiguous block) is opt-in: callers add it explicitly with a low probability.
 
@@ -358,6 +359,12 @@ class Gen:
         self.edges = 0
         self.n_ips = 0
 
+    def ref(self, rel: str) -> str:
+        """How a file is named inside the source: relative, or absolute through the $ROOT$ token."""
+        if "abs_paths" in self.feats and self.rng.random() < 0.5:
+            return "$ROOT$/" + rel
+        return rel
+
     def note_label(self, name: str) -> None:
         self.prog.label_sites.append((name, self.cur_for == 0, self.cur_macro))
 
@@ -425,6 +432,9 @@ class Gen:
             sz = rng.choice("bw")
             return stmt(f"{op}.{sz} #{self.lit(8 if sz == 'b' else 16)}")
         if r < 0.46:
+            if rng.random() < 0.3:
+                # negative operands (width is inferred from the value)
+                return stmt(rng.choice(["lda #-1", "lda #-2", "ldx #-1", "lda -1", "cmp #-16", "adc #0 - 3"]))
             return stmt(f"{rng.choice(['rep', 'sep'])} #{rng.choice(['0x30', '0x20', '0x10'])}")
         if r < 0.58:
             op = rng.choice(DIRECT_BWL)
@@ -459,7 +469,7 @@ class Gen:
             return stmt(".dl " + ", ".join(self.data_expr() for _ in range(rng.randrange(1, 3))))
         if r < 0.8:
             return stmt(".pointer " + self.data_expr())
-        text = "".join(rng.choice("ABCDEFGHIJ klmnop0123!?") for _ in range(rng.randrange(1, 12)))
+        text = "".join(rng.choice("ABCDEFGHIJ klmnop0123!?") for _ in range(rng.randrange(1, 12) if rng.random() < 0.85 else rng.randrange(30, 70)))
         if self.has_table and rng.random() < 0.5:
             text = "".join(rng.choice(self.table_chars) for _ in range(rng.randrange(1, 10)))
             return stmt(f".text '{text}'")
@@ -686,7 +696,7 @@ class Gen:
             rel = f"{self.prefix}bin{self.uid()}.bin"
             self.prog.files[rel] = bytes(rng.randrange(256) for _ in range(rng.choice([1, 2, 7, 16, 40, 64])))
             self.prog.roles[rel] = "incbin"
-            return [stmt(f".incbin '{rel}'", "incbin")]
+            return [stmt(f".incbin '{self.ref(rel)}'", "incbin")]
         if kind == "ips":
             # a small well-formed third-party patch whose targets lie in a zone the program never writes
             from .ipsref import encode
@@ -704,7 +714,7 @@ class Gen:
             self.prog.files[rel] = encode(recs)
             self.prog.roles[rel] = "ips_in"
             expr = f"{delta:#x}" if delta >= 0 else f"-{-delta:#x}"
-            return [stmt(f".include_ips '{rel}', {expr}", "include_ips")]
+            return [stmt(f".include_ips '{self.ref(rel)}', {expr}", "include_ips")]
         if kind == "table":
             rel = f"{self.prefix}tbl{self.uid()}.tbl"
             chars = rng.sample("ABCDEFGHIJKLMNOPQRSTUVWXYZabcdefgh", rng.randrange(3, 12))
@@ -718,7 +728,7 @@ class Gen:
             self.prog.roles[rel] = "table"
             self.has_table = True
             self.table_chars = "".join(chars)
-            return [stmt(f".table '{rel}'", "table")]
+            return [stmt(f".table '{self.ref(rel)}'", "table")]
         raise AssertionError(kind)
 
     def condition(self) -> tuple[str, bool]:
@@ -778,7 +788,7 @@ class Gen:
                         self._note_assign(n)
                     inc_nodes += nodes
                 prog.inc_roots[rel] = inc_nodes
-                root.append(stmt(f".include '{rel}'", "include"))
+                root.append(stmt(f".include '{self.ref(rel)}'", "include"))
             if "reloc" in f and not use_map and rng.random() < 0.4:
                 # '@=' changes only the logical address: following code is stored contiguously but assembled
                 # to run elsewhere - in RAM, or at another ROM address (no branches after it in this section)
